@@ -204,6 +204,10 @@ def fmt_parts(e: ast.expr):
         args = list(e.right.elts) if isinstance(e.right, ast.Tuple) else [e.right]
         tmpl = e.left.value.replace("%s", "{}").replace("%r", "{!r}").replace("%d", "{}")
         return tmpl, [norm(a) for a in args]
+    if isinstance(e, ast.BinOp) and isinstance(e.op, ast.Add) and isinstance(e.left, ast.Constant) and isinstance(e.left.value, str) \
+            and not isinstance(e.right, ast.Constant):
+        # 'prefix' + x is the one-hole template 'prefix{}'
+        return e.left.value.replace("{", "{{").replace("}", "}}") + "{}", [norm(e.right)]
     if isinstance(e, ast.JoinedStr):
         tmpl, args = "", []
         for v in e.values:
